@@ -142,8 +142,10 @@ Definition jerr (e : err) : string :=
         | ECustomOptionNotProvided p o => "CustomOptionInPathNotProvided(" ++ p ++ "," ++ o ++ ")"
         | EMissingSectionForSegment f s g => "MissingSectionForSegment(" ++ f ++ "," ++ s ++ "," ++ g ++ ")"
         | EMissingVramClassForSegment s c => "MissingVramClassForSegment(" ++ s ++ "," ++ c ++ ")"
-        | EInvalidSegmentCount n => "InvalidSegmentCount(" ++ dec_of_nat n ++ ")"
-        | ESubgroupCycle s c => "SectionsSubgroupsCycle(" ++ s ++ "," ++ c ++ ")"
+        | EInvalidSegmentCount n =>
+            "OTHER(`single_segment_mode` requires exactly one segment, but " ++ dec_of_nat n ++ " were given)"
+        | ESubgroupCycle s c =>
+            "OTHER(The `sections_subgroups` of segment '" ++ s ++ "' make the section '" ++ c ++ "' contain itself)"
         | ECrash w => "CRASH(" ++ w ++ ")"
         end).
 
